@@ -34,6 +34,13 @@ FIRST = {
     "C16-3": "C03.R2 at once (the same edit was seeded for C03); **C16 missed**; one-sided-rows rule C16.R5 added (shares the recogniser)",
     "C16-4": "exit 2 at first (zero-point not in the recognised form); overflow rule C16.R6 added - **which then reported F26 on the unchanged tree**",
     "C15-3": "reported by C15.R8 (added for C15-2 an hour earlier)",
+    "C03-5": "**missed at first**: the symbolic group extent G*g never equals g; degenerate-extent instances (a dim equal to the group size, rank 2 and 3) added to the layout rule (C02.R4 / C03.R5)",
+    "C05-5": "exit 2 at first (op outside the class table); the trusted table of aten op classes now lists fills / pads / non-homogeneous ops as such",
+    "C06-5": "**missed at first**; constructor-field clause added to C06.R3 (every `__init__` of the tensor hierarchy stores its arguments unchanged)",
+    "C08-6": "exit 2 at first; exact-class table lookups are now a violation of C08.R5",
+    "C02-5": "exit 2 at first; a zero-point rounded by `+0.5` and a truncating cast is a violation of C02.R5 while the range excludes zero",
+    "C07-5": "C05.R4 / C06 at once; **C07 missed**: the matmul guards trust `axis`; operand-invariant rule C07.R7 added (re-emits the axis/scale agreement obligations of every re-laying handler)",
+    "C07-6": "exit 2 at first (the handler called the library kernel, unknown to the interpreter of handlers); the kernel is now bound there too",
     "C06-4": "exit 2 at first (two return paths in `__tensor_unflatten__`); the reader is now analysed per path, codec verdicts count for C06.R5",
 }
 
